@@ -236,3 +236,118 @@ func TestC08Boundaries(t *testing.T) {
 		})
 	})
 }
+
+func c08Reader(data []byte, c c08Cfg) (io.Reader, []func(*astits.Demuxer)) {
+	fr := &faultReader{data: data, failAt: -1, chunk: c.chunk, sched: c.sched}
+	var r io.Reader = fr
+	switch c.reader {
+	case rkSeek:
+		r = bytes.NewReader(data)
+	case rkBufio:
+		r = bufio.NewReaderSize(fr, 4096)
+	}
+	var opts []func(*astits.Demuxer)
+	if c.explicit {
+		opts = append(opts, astits.DemuxerOptPacketSize(188+c.k))
+	}
+	return r, opts
+}
+
+// c08Outcomes renders what the NextPacket (api 0) or NextData (api 1) loop returns on data: packets/items in canonical
+// form, "E" for an error other than ErrNoMorePackets, "END" for ErrNoMorePackets (the loop stops there).
+func c08Outcomes(data []byte, c c08Cfg, api int) []string {
+	r, opts := c08Reader(data, c)
+	d := astits.NewDemuxer(context.Background(), r, opts...)
+	var out []string
+	for i := 0; i < len(data)/188+16; i++ {
+		var x interface{}
+		var err error
+		if api == 0 {
+			x, err = d.NextPacket()
+		} else {
+			x, err = d.NextData()
+		}
+		if err == astits.ErrNoMorePackets {
+			return append(out, "END")
+		}
+		if err != nil {
+			out = append(out, "E")
+			continue
+		}
+		out = append(out, obs.Canon(x))
+	}
+	return append(out, "NO-END")
+}
+
+// TestC08Tails: inputs that are not a whole number of packets - nothing at all, less than one packet, whole packets
+// followed by the first bytes of another one.
+func TestC08Tails(t *testing.T) {
+	rec := obs.NewRecorder("C08", "tails", "deterministic sweep: a fixed well-formed stream cut after N = 0..3 whole records of 188 and 192 bytes plus EVERY tail length 0..record-1 (the first bytes of the next record), read through {plain, seekable, bufio} x {explicit size, auto-detection} x {NextPacket, NextData}; relations: with an explicit size every reader kind gives the outcome sequence (packets/items, errors, ErrNoMorePackets) of the seekable reader; with auto-detection the seekable and the bufio reader give the sequence of the explicit size (when the input holds a single sync byte within the 193-byte window the size cannot be detected: both must then agree with each other), the plain reader (whose detection window is consumed, as documented) a suffix of it that ends the same way; distinct by construction")
+	defer rec.Flush()
+	pts := uint64(77)
+	var cc0, cc1, cc2 uint8
+	var pk []*ref.TSPacket
+	pk = append(pk, ref.NullPacket(0xff))
+	pat := (&ref.Section{TableID: 0, CurrentNext: true, PAT: &astits.PATData{TransportStreamID: 1, Programs: []*astits.PATProgram{{ProgramNumber: 1, ProgramMapID: 0x1000}}}}).Encode()
+	pk = append(pk, ref.PacketizeUnit(0, ref.PSIUnit(0, 0, pat), &cc0, ref.PktOpts{PadFF: true})...)
+	pk = append(pk, ref.PacketizeUnit(0x100, (&ref.PES{StreamID: 0xe0, Length: -1, Opt: &ref.PESOpt{PTS: &pts}, Payload: bytes.Repeat([]byte{0xa5}, 100)}).Encode(), &cc1, ref.PktOpts{})...)
+	pk = append(pk, ref.PacketizeUnit(0x101, (&ref.PES{StreamID: 0xc0, Length: -1, Opt: &ref.PESOpt{PTS: &pts}, Payload: bytes.Repeat([]byte{0x5a}, 60)}).Encode(), &cc2, ref.PktOpts{})...)
+	stream := ref.EncodeAll(pk)
+	total := int64(0)
+	for _, k := range []int{0, 4} {
+		rs := 188 + k
+		framed := frame(stream, k, func(i int) byte { return byte(0x80 | i%100) })
+		for n := 0; n <= 3; n++ {
+			for tail := 0; tail < rs; tail++ {
+				data := append([]byte{}, framed[:n*rs+tail]...)
+				for api := 0; api < 2; api++ {
+					want := c08Outcomes(data, c08Cfg{k: k, explicit: true, reader: rkSeek}, api)
+					var autoSeek []string
+					for _, reader := range []int{rkSeek, rkBufio, rkPlain} {
+						for _, explicit := range []bool{true, false} {
+							c := c08Cfg{k: k, explicit: explicit, reader: reader}
+							got := c08Outcomes(data, c, api)
+							total++
+							ok := equalStrings(got, want)
+							if reader == rkSeek && !explicit {
+								autoSeek = got
+							}
+							switch {
+							case explicit:
+							case reader == rkPlain:
+								// documented: the detection window (two packets) is consumed; a window that cannot be completed is an error
+								var g []string
+								for _, x := range got {
+									if x != "E" {
+										g = append(g, x)
+									}
+								}
+								ok = len(g) > 0 && len(g) <= len(want) && equalStrings(g, want[len(want)-len(g):])
+							case len(data) >= 188 && len(data) <= rs:
+								// a single sync byte in the window: the size cannot be detected; the reader kinds must still agree
+								ok = equalStrings(got, autoSeek)
+							}
+							if !ok {
+								t.Fatalf("%d records of %d bytes + %d bytes, %s, api %d: outcomes %v, reference (explicit size, seekable) %v", n, rs, tail, c, api, shortOutcomes(got), shortOutcomes(want))
+							}
+						}
+					}
+				}
+			}
+		}
+	}
+	rec.Enumerated(total)
+	rec.SetExhaustive(true)
+	rec.Sample(map[string]interface{}{"record_sizes": []int{188, 192}, "whole_records": "0..3", "tail_lengths": "0..record-1", "runs": total})
+}
+
+func shortOutcomes(o []string) []string {
+	var s []string
+	for _, x := range o {
+		if len(x) > 24 {
+			x = x[:24] + "..."
+		}
+		s = append(s, x)
+	}
+	return s
+}
